@@ -425,4 +425,237 @@ Proof.
   - split; [now apply loop_step|]. split; [exact S1|now apply send_from_loop].
 Qed.
 
+(* ---------- enter ---------- *)
+
+Fixpoint g_wf1 (D : amap (fdef T)) (g : gtree T) : Prop :=
+  match g with
+  | TLeaf l => leaf_in D l /\ In (lf_id l) vis
+  | TGroup n kids =>
+    ~ In n vis /\ (exists kids0, get D n = Some (FNest z0 false kids0)) /\ all (g_wf1 D) kids
+  end.
+(* before enter: the doers of every DoDoer are its kids, its deque is empty *)
+Fixpoint g_st1 s (g : gtree T) : Prop :=
+  match g with
+  | TLeaf _ => True
+  | TGroup n kids =>
+    doers (get_sched s n) = map gt_top kids /\ deeds (get_sched s n) = [] /\ all (g_st1 s) kids
+  end.
+
+Lemma gts_ids_leaf (l : leaf T) r : gts_ids (TLeaf l :: r) = lf_id l :: gts_ids r.
+Proof. reflexivity. Qed.
+Lemma gts_ids_group n (kids r : list (gtree T)) : gts_ids (TGroup n kids :: r) = n :: gts_ids kids ++ gts_ids r.
+Proof. reflexivity. Qed.
+
+Lemma gs_st_frame Xg Xs s s' : forall gs,
+  frame Xg Xs s s' -> (forall x, In x (gts_ids gs) -> ~ In x Xs) -> all (g_st1 s) gs -> all (g_st1 s') gs.
+Proof.
+  intros gs F. induction gs as [|l r IH|n kids r IHk IH] using gtrees_ind; intros Hn G.
+  - exact I.
+  - cbn [all g_st1] in *. split; [exact I|]. apply IH; [|apply G].
+    intros x Hx. apply Hn. rewrite gts_ids_leaf. now right.
+  - cbn [all g_st1] in *. destruct G as [(Do & Dq & Gk) Gr].
+    destruct F as (_ & _ & _ & FS).
+    assert (Nn : ~ In n Xs) by (apply Hn; rewrite gts_ids_group; now left).
+    split; [split; [|split]|].
+    + rewrite FS; [exact Do|exact Nn].
+    + rewrite FS; [exact Dq|exact Nn].
+    + apply IHk; [|exact Gk]. intros x Hx. apply Hn. rewrite gts_ids_group. right. apply in_or_app. now left.
+    + apply IH; [|exact Gr]. intros x Hx. apply Hn. rewrite gts_ids_group. right. apply in_or_app. now right.
+Qed.
+
+Lemma tenter_cons (t : T) (g : gtree T) r o :
+  tenter t (g :: r) o =
+  let '(ox, o1) := tenter1 t g o in
+  let '(r', o2) := tenter t r o1 in
+  (match ox with Some y => y :: r' | None => r' end, o2).
+Proof. reflexivity. Qed.
+Lemma tenter1_group (t : T) n kids o :
+  tenter1 t (TGroup n kids) o = let '(kids', o1) := tenter t kids o in (Some (IGroup n 1 t kids'), o1).
+Proof. reflexivity. Qed.
+
+Lemma tenter_wf (t : T) D : forall (gs : list (gtree T)) o its o',
+  tenter t gs o = (its, o') ->
+  subl (ts_ids its) (gts_ids gs) /\ (all (g_wf1 D) gs -> ts_wf D its).
+Proof.
+  induction gs as [|l gs IH|n kids gs IHk IH] using gtrees_ind; intros o its o' E.
+  - inversion E; subst. split; [apply subl_nil|auto].
+  - rewrite tenter_cons in E. cbn [tenter1] in E. rewrite gts_ids_leaf.
+    destruct (lf_enter t l o) as [ov o1] eqn:El.
+    destruct (tenter t gs o1) as [r' o2] eqn:Ep. destruct (IH _ _ _ Ep) as [S W].
+    destruct ov as [v|]; cbn [option_map] in E; inversion E; subst.
+    + pose proof (lf_enter_leaf _ _ _ _ _ El) as Lv.
+      assert (Li : lv_id v = lf_id l) by (unfold lv_id; now rewrite Lv).
+      rewrite ts_ids_leaf, Li. split; [now apply subl_keep|].
+      cbn [all t_wf1 g_wf1]. rewrite Li, Lv. intros [Wv Wr]. split; [exact Wv|auto].
+    + split; [now apply subl_skip|]. cbn [all g_wf1]. intros [_ Wr]. auto.
+  - rewrite tenter_cons, tenter1_group in E. rewrite gts_ids_group.
+    destruct (tenter t kids o) as [kids' o1] eqn:Ek.
+    destruct (tenter t gs o1) as [r' o2] eqn:Ep.
+    destruct (IHk _ _ _ Ek) as [Sk Wk]. destruct (IH _ _ _ Ep) as [S W].
+    inversion E; subst. rewrite ts_ids_group. split; [apply subl_keep; apply subl_app; assumption|].
+    cbn [all t_wf1 g_wf1]. intros [(NV & Dn & Wkk) Wr]. split; [split; [exact NV|split; [exact Dn|auto]]|auto].
+Qed.
+
+Definition enter_at (f : nat) : Prop := forall sid (gs : list (gtree T)) s o s' r,
+  enter_own tk f s sid (map gt_top gs) = (s', r) -> oof s' = false ->
+  (forall x, In x (gts_ids gs) -> get_gen s x = GNew) ->
+  all (g_wf1 (defs s)) gs -> all (g_st1 s) gs -> NoDup (sid :: gts_ids gs) -> out_ok vis s o ->
+  exists its o', tenter (tyme s) gs o = (its, o') /\ r = GReturn /\
+    deeds (get_sched s' sid) = deeds (get_sched s sid) ++ map t_deed its /\
+    ts_ok s' its /\ out_ok vis s' o' /\ frame (gts_ids gs) (sid :: gts_ids gs) s s'.
+
+Definition start_at (f : nat) : Prop := forall s n (kids : list (gtree T)) o s' r,
+  gen_start tk f s n = (s', r) -> oof s' = false ->
+  (forall x, In x (n :: gts_ids kids) -> get_gen s x = GNew) ->
+  all (g_wf1 (defs s)) [TGroup n kids] -> all (g_st1 s) [TGroup n kids] ->
+  NoDup (n :: gts_ids kids) -> out_ok vis s o ->
+  exists kids' o', tenter (tyme s) kids o = (kids', o') /\ r = GYield (Some (tabs z0)) /\
+    get_gen s' n = GSusp 1 /\ deeds (get_sched s' n) = map t_deed kids' /\ ts_ok s' kids' /\
+    out_ok vis s' o' /\ frame (n :: gts_ids kids) (n :: gts_ids kids) s s'.
+
+Lemma start_from_enter f : enter_at f -> start_at (S f).
+Proof.
+  intros En s n kids o s' r E O GN W St ND OK.
+  cbn [all g_wf1 g_st1] in W, St. destruct W as [(NV & [kids0 D] & WK) _]. destruct St as [(Do & Dq & SK) _].
+  pose proof ND as ND'. apply NoDup_cons_iff in ND' as [Nn NDk].
+  assert (Gn : get_gen s n = GNew) by (apply GN; now left).
+  rewrite gen_start_S in E. unfold startable in E. rewrite Gn in E. cbn [negb] in E. rewrite D in E.
+  cbv zeta in E.
+  set (s1 := emit (set_gen s n (GRun 0)) Enter n) in *.
+  change (doers (get_sched s1 n)) with (doers (get_sched s n)) in E. rewrite Do in E.
+  destruct (enter_own tk f s1 n (map gt_top kids)) as [s2 g] eqn:Ee.
+  assert (O2 : oof s2 = false).
+  { destruct g; inversion E; subst s'; rewrite ?oof_set_gen, ?oof_emit in O; try exact O.
+    apply oof_close_own in O. destruct kbd; exact O. }
+  assert (F1 : frame [n] [] s s1).
+  { unfold s1. apply frame_emit. apply frame_gen; [now left|]. apply frame_refl. }
+  assert (GK1 : forall x, In x (gts_ids kids) -> get_gen s1 x = GNew).
+  { intros x Hx. destruct F1 as (_ & _ & FG & _). rewrite FG; [apply GN; now right|].
+    intros [Heq|[]]. subst x. contradiction. }
+  assert (OK1 : out_ok vis s1 o) by (unfold s1; apply ok_emit_invis; [exact NV|now apply ok_gen]).
+  assert (SK1 : all (g_st1 s1) kids) by (eapply gs_st_frame; [exact F1| |exact SK]; intros x Hx []).
+  destruct (En n kids s1 o s2 g Ee O2 GK1 WK SK1 ND OK1)
+    as (kids' & o' & Hp & -> & Dq2 & K2 & OK2 & F2).
+  change (tyme s1) with (tyme s) in Hp. change (get_sched s1 n) with (get_sched s n) in Dq2.
+  rewrite Dq in Dq2. cbn [app] in Dq2.
+  inversion E; subst s' r; clear E.
+  exists kids', o'. split; [exact Hp|]. split; [reflexivity|].
+  split; [apply gen_set_gen_same|]. split; [rewrite sched_set_gen; exact Dq2|].
+  split; [|split].
+  - apply (ts_ok_frame [n] [] s2 _ kids'); [| |exact K2].
+    + apply frame_gen; [now left|]. apply frame_refl.
+    + intros x Hx. split; [|intros []]. intros [Heq|[]]. subst x. apply Nn.
+      eapply subl_In; [exact (proj1 (tenter_wf _ (defs s) _ _ _ _ Hp))|exact Hx].
+  - now apply ok_gen.
+  - apply frame_gen; [now left|].
+    eapply frame_trans; [eapply frame_weaken; [| |exact F1]|eapply frame_weaken; [| |exact F2]];
+      intros x Hx; cbn [In] in *; tauto.
+Qed.
+
+Lemma enter_step f : enter_at f -> start_at f -> enter_at (S f).
+Proof.
+  intros En St0 sid gs s o s' r E O GN W St ND OK.
+  destruct gs as [|g gs].
+  - cbn [map] in E. rewrite enter_own_S in E. inversion E; subst s' r.
+    exists [], o. split; [reflexivity|]. split; [reflexivity|].
+    split; [now rewrite app_nil_r|]. split; [exact I|]. split; [exact OK|apply frame_refl].
+  - cbn [map] in E. destruct g as [l|n kids].
+    + cbn [all g_wf1 g_st1 gt_top] in W, St, E. destruct W as [[Dl Vl] WU]. destruct St as [_ SU].
+      rewrite gts_ids_leaf in ND, GN. destruct (nd_leaf _ _ _ ND) as (NDU & Nl & Nls & Ns).
+      assert (Gl : get_gen s (lf_id l) = GNew) by (apply GN; now left).
+      destruct (enter_leaf_step vis tk f s sid l _ s' r o E O Gl Dl Vl OK)
+        as (s2 & ov & o1 & Hst & E2 & Dq2 & Hov & OK2 & F2).
+      assert (GN2 : forall x, In x (gts_ids gs) -> get_gen s2 x = GNew).
+      { intros x Hx. destruct F2 as (_ & _ & FG & _). rewrite FG; [apply GN; now right|].
+        intros [Heq|[]]. subst x. contradiction. }
+      assert (WU2 : all (g_wf1 (defs s2)) gs) by (destruct F2 as (_ & -> & _); exact WU).
+      assert (SU2 : all (g_st1 s2) gs).
+      { eapply gs_st_frame; [exact F2| |exact SU]. intros x Hx [Heq|[]]. subst x. contradiction. }
+      assert (T2 : tyme s2 = tyme s) by (destruct F2 as (-> & _); reflexivity).
+      destruct (En sid gs s2 o1 s' r E2 O GN2 WU2 SU2 NDU OK2) as (its & o' & Hp & -> & Dq' & G' & OK' & F').
+      rewrite T2 in Hp. rewrite tenter_cons. cbn [tenter1]. rewrite Hst, Hp. rewrite Dq', Dq2, <- app_assoc.
+      rewrite gts_ids_leaf.
+      assert (FF : frame (lf_id l :: gts_ids gs) (sid :: lf_id l :: gts_ids gs) s s').
+      { eapply frame_trans; [eapply frame_weaken; [| |exact F2]|eapply frame_weaken; [| |exact F']];
+          intros x Hx; cbn [In] in *; tauto. }
+      destruct ov as [v|]; cbn [option_map].
+      * destruct Hov as [Gv Lv].
+        eexists _, _. split; [reflexivity|]. split; [reflexivity|]. split; [reflexivity|].
+        split; [|split; assumption].
+        cbn [all t_ok1]. split; [|exact G'].
+        eapply lv_ok_frame; [exact F'| |exact Gv]. unfold lv_id. rewrite Lv. exact Nl.
+      * eexists _, _. split; [reflexivity|]. split; [reflexivity|]. split; [reflexivity|].
+        split; [exact G'|split; assumption].
+    + pose proof W as W0. pose proof St as St0'.
+      cbn [all g_wf1 g_st1 gt_top] in W, St, E. destruct W as [(NV & Dn & WK) WU]. destruct St as [(Do & Dq & SK) SU].
+      rewrite gts_ids_group in ND, GN. destruct (nd_group _ _ _ _ ND) as (NDU & NDn & Nns & Nsk & Nsu & Disj).
+      rewrite enter_own_S in E. cbv zeta in E.
+      set (s0 := set_done s n (Some false)) in *.
+      pose proof (oof_gen_start_enter tk _ _ _ _ _ _ _ E O) as O1.
+      destruct (gen_start tk f s0 n) as [s1 g] eqn:Es. cbn [fst] in O1.
+      assert (GN0 : forall x, In x (n :: gts_ids kids) -> get_gen s0 x = GNew).
+      { intros x Hx. unfold s0. rewrite gen_set_done. apply GN. cbn [In] in *. rewrite in_app_iff. tauto. }
+      assert (W1 : all (g_wf1 (defs s0)) [TGroup n kids]).
+      { cbn [all g_wf1]. split; [|exact I]. split; [exact NV|]. split; [exact Dn|exact WK]. }
+      assert (S1 : all (g_st1 s0) [TGroup n kids]).
+      { cbn [all g_st1]. split; [|exact I]. split; [exact Do|]. split; [exact Dq|].
+        eapply (gs_st_frame [] [] s s0); [unfold s0; apply frame_done; apply frame_refl| |exact SK]. intros x Hx []. }
+      destruct (St0 s0 n kids o s1 g Es O1 GN0 W1 S1 NDn (ok_done_invis _ _ _ _ _ NV OK))
+        as (kids' & o1 & Hk & -> & Gs & Dqs & Ks & OK1 & F1).
+      change (tyme s0) with (tyme s) in Hk.
+      assert (Hsub : forall x, In x (ts_ids kids') -> In x (gts_ids kids)).
+      { intro x. apply subl_In. exact (proj1 (tenter_wf _ (defs s) _ _ _ _ Hk)). }
+      assert (F01 : frame (n :: gts_ids kids) (n :: gts_ids kids) s s1).
+      { eapply frame_trans; [|exact F1]. unfold s0. apply frame_done. apply frame_refl. }
+      assert (T1 : tyme s1 = tyme s) by (destruct F01 as (-> & _); reflexivity).
+      rewrite T1 in E.
+      set (s2 := set_deeds s1 sid (deeds (get_sched s1 sid) ++ [DDeed n (tyme s)])) in *.
+      assert (F12 : frame [] [sid] s1 s2) by (apply frame_deeds; [now left|apply frame_refl]).
+      assert (F2 : frame (n :: gts_ids kids) (sid :: n :: gts_ids kids) s s2).
+      { eapply frame_trans; [eapply frame_weaken; [| |exact F01]|eapply frame_weaken; [| |exact F12]];
+          intros x Hx; cbn [In] in *; tauto. }
+      assert (Dq2 : deeds (get_sched s2 sid) = deeds (get_sched s sid) ++ [DDeed n (tyme s)]).
+      { unfold s2. rewrite deeds_set_deeds_same. destruct F01 as (_ & _ & _ & FS). rewrite FS; [reflexivity|].
+        intros [Heq|Hx]; [now apply Nns|now apply Nsk]. }
+      assert (GN2 : forall x, In x (gts_ids gs) -> get_gen s2 x = GNew).
+      { intros x Hx. destruct F2 as (_ & _ & FG & _). rewrite FG; [apply GN; right; apply in_or_app; now right|].
+        intro Hin. exact (Disj x Hin Hx). }
+      assert (WU2 : all (g_wf1 (defs s2)) gs) by (destruct F2 as (_ & -> & _); exact WU).
+      assert (SU2 : all (g_st1 s2) gs).
+      { eapply gs_st_frame; [exact F2| |exact SU]. intros x Hx [Heq|Hin]; [subst x; contradiction|exact (Disj x Hin Hx)]. }
+      destruct (En sid gs s2 o1 s' r E O GN2 WU2 SU2 NDU (ok_deeds _ _ _ _ _ OK1))
+        as (its & o' & Hp & -> & Dq' & G' & OK' & F').
+      change (tyme s2) with (tyme s1) in Hp. rewrite T1 in Hp.
+      rewrite tenter_cons, tenter1_group, Hk, Hp. rewrite Dq', Dq2, <- app_assoc. rewrite gts_ids_group.
+      eexists _, _. split; [reflexivity|]. split; [reflexivity|]. split; [reflexivity|].
+      split; [|split; [exact OK'|]].
+      * change (ts_ok s' (IGroup n 1 (tyme s) kids' :: its)) with (t_ok1 s' (IGroup n 1 (tyme s) kids') /\ ts_ok s' its).
+        split; [|exact G'].
+        assert (G3 : ts_ok s' [IGroup n 1 (tyme s) kids']).
+        { apply (ts_ok_frame (gts_ids gs) (sid :: gts_ids gs) s2 s' _ F').
+          - intros x Hx. rewrite ts_ids_group, app_nil_r in Hx.
+            assert (Hin : In x (n :: gts_ids kids)).
+            { destruct Hx as [<-|Hx]; [now left|right; now apply Hsub]. }
+            split; [exact (Disj x Hin)|].
+            intros [Heq|Hx2]; [|exact (Disj x Hin Hx2)].
+            subst x. destruct Hin as [Hin|Hin]; [now apply Nns|now apply Nsk].
+          - apply (ts_ok_frame [] [sid] s1 s2 _ F12).
+            + intros x Hx. split; [intros []|]. intros [Heq|[]]. subst x.
+              rewrite ts_ids_group, app_nil_r in Hx.
+              destruct Hx as [Hx|Hx]; [now apply Nns|apply Nsk; now apply Hsub].
+            + cbn [all t_ok1]. auto. }
+        exact (proj1 G3).
+      * eapply frame_trans; [eapply frame_weaken; [| |exact F2]|eapply frame_weaken; [| |exact F']];
+          intros x Hx; cbn [In] in *; rewrite ?in_app_iff in *; tauto.
+Qed.
+
+Lemma enter_all : forall f, enter_at f /\ start_at f.
+Proof.
+  induction f as [|f [En St]].
+  - split.
+    + intros sid gs s o s' r E O. rewrite enter_own_O in E. inversion E; subst; discriminate.
+    + intros s n kids o s' r E O. rewrite gen_start_O in E. inversion E; subst; discriminate.
+  - split; [now apply enter_step|now apply start_from_enter].
+Qed.
+
 End TRun.
